@@ -215,7 +215,12 @@ fn random_query(rng: &mut ChaCha8Rng, t: Vec<u8>, token: Option<Vec<u8>>) -> (Kr
         ),
         3 => {
             // announce with a token the node never issued
-            let tok = match rng.gen_range(0..5) {
+            let tok = match rng.gen_range(0..6) {
+                5 => {
+                    // very long tokens (the query still fits one datagram)
+                    let n = rng.gen_range(100..1300);
+                    gen::bytes(rng, n)
+                }
                 0 => Vec::new(),
                 1 => gen::bytes(rng, 20),
                 2 => gen::bytes(rng, 19),
